@@ -134,6 +134,9 @@ Definition bindo (dead : nat -> bool) (m : list (Z * nat)) (o : Z) (f : nat) : o
                else None
   end.
 Definition unbind (m : list (Z * nat)) (f : nat) : list (Z * nat) := filter (fun p => negb (Nat.eqb (snd p) f)) m.
+(* the word is not bound to a descriptor in use *)
+Definition unbound (dead : nat -> bool) (m : list (Z * nat)) (o : Z) : bool :=
+  match zassoc m o with None => true | Some g => dead g end.
 Definition bindthr (m : nat -> option nat) (f t : nat) : option (nat -> option nat) :=
   match m f with
   | None => Some (upd m f (Some t))
@@ -384,7 +387,7 @@ Definition mkplan (s : ast) (e : list Z) : plan :=
           | Some ofl =>
               (* an event was reported on this word before the descriptor was known: it is played now; the selector
                  thread that reported it may still be on its way to the coroutine slot (`selpre`) *)
-              let pre := zmem (preflag x) obj && negb (is_some (zassoc (oflag x) obj)) && znz v in
+              let pre := zmem (preflag x) obj && unbound (closed m) (oflag x) obj && znz v in
               let x1 := set_oflag x ofl (if pre then filter (fun o => negb (Z.eqb o obj)) (preflag x) else preflag x) in
               let late := find (fun t' => match selpre x t' with Some o => Z.eqb o obj | None => false end) (seq 0 64) in
               let x' := match pre, late with
@@ -425,7 +428,7 @@ Definition mkplan (s : ast) (e : list Z) : plan :=
                         let f' := sfd (Sb m k) in
                         match bindo (closed m) (oflag x) obj f' with
                         | Some ofl =>
-                            let pre := zmem (preflag x) obj && negb (is_some (zassoc (oflag x) obj)) && znz v
+                            let pre := zmem (preflag x) obj && unbound (closed m) (oflag x) obj && znz v
                                        && match Sel m f' with SIdle => true | _ => false end in
                             let x1 := set_oflag x ofl (if pre then filter (fun o => negb (Z.eqb o obj)) (preflag x) else preflag x) in
                             (* the selector thread that reported it may still be on its way to the slot: its take (41) follows *)
@@ -518,8 +521,9 @@ Definition mkplan (s : ast) (e : list Z) : plan :=
         end
     (* ---- the selector thread: Selector::select, timeout_handler ---- *)
     | 40 => (* select: io_flag.fetch_or(events) -> old *)
-        match zassoc (oflag x) obj with
-        | None => (* the word of a descriptor that is not in use (not yet, or closed while its event was in the batch) *)
+        match (match zassoc (oflag x) obj with Some f' => if closed m f' then None else Some f' | None => None end) with
+        | None => (* the word of a descriptor that is not in use (not yet, or closed while its event was in the batch), or of
+                     a new descriptor whose data the allocator placed where those of a closed one were *)
             ok (set_sel (set_oflag x (oflag x) (if zmem (preflag x) obj then preflag x else obj :: preflag x))
                         (selthr x) (upd (selcur x) t None) (upd (selpre x) t (Some obj)))
         | Some f' =>
